@@ -1374,6 +1374,27 @@ func (e *Exec) binop(fr *Frame, ins ssa.Instruction, op token.Token, a, b Value,
 				}
 				return tf.Wrap(tf.IntB(r), bits, signed)
 			}
+			// symbolic operands with a small non-negative range: bit by bit
+			if k, ok := smallBits(x, y); ok {
+				res := tf.Int(0)
+				for i := 0; i < k; i++ {
+					bx := tf.EMod(tf.EDiv(x, 1<<uint(i)), 2)
+					by := tf.EMod(tf.EDiv(y, 1<<uint(i)), 2)
+					var b *Term
+					switch op {
+					case token.AND:
+						b = tf.Mul(bx, by)
+					case token.OR:
+						b = tf.Sub(tf.Add(bx, by), tf.Mul(bx, by))
+					case token.XOR:
+						b = tf.Sub(tf.Add(bx, by), tf.Mul(tf.Int(2), tf.Mul(bx, by)))
+					default: // AND_NOT
+						b = tf.Sub(bx, tf.Mul(bx, by))
+					}
+					res = tf.Add(res, tf.Mul(b, tf.Int(1<<uint(i))))
+				}
+				return res
+			}
 		}
 	}
 	if _, ok := a.(*Term); ok && a.(*Term).Sort == SBool {
@@ -1387,6 +1408,20 @@ func (e *Exec) binop(fr *Frame, ins ssa.Instruction, op token.Token, a, b Value,
 	}
 	e.unsupported("binary op %s on %s in %s", op, t, fr.fn)
 	return nil
+}
+
+// smallBits: both operands are known to lie in [0, 2^k) for some k <= 16.
+func smallBits(x, y *Term) (int, bool) {
+	k := 0
+	for _, t := range []*Term{x, y} {
+		if t.Lo == nil || t.Hi == nil || t.Lo.Sign() < 0 || t.Hi.BitLen() > 16 {
+			return 0, false
+		}
+		if t.Hi.BitLen() > k {
+			k = t.Hi.BitLen()
+		}
+	}
+	return k, true
 }
 
 func (e *Exec) strLess(a, b StrV) *Term {
